@@ -4,6 +4,7 @@ mod reprs;
 mod e_fmt;
 mod e_buf;
 mod e_cmp;
+mod e_bufmut;
 
 use std::io::{BufWriter, Write};
 
@@ -12,7 +13,19 @@ fn arg<T: std::str::FromStr>(args: &[String], name: &str, default: T) -> T {
 }
 fn flag(args: &[String], name: &str) -> bool { args.iter().any(|a| a == name) }
 
+pub static PROGRESS: std::sync::atomic::AtomicU64 = std::sync::atomic::AtomicU64::new(0);
+pub static CURRENT: std::sync::Mutex<String> = std::sync::Mutex::new(String::new());
+/// called at the start of every case: lets the watchdog name the case that never returned
+pub fn progress(case: &str) { PROGRESS.fetch_add(1, std::sync::atomic::Ordering::Relaxed); if let Ok(mut c) = CURRENT.lock() { c.clear(); c.push_str(case); } }
+fn watchdog() {
+    std::thread::spawn(|| { let mut last = u64::MAX; let mut idle = 0;
+        loop { std::thread::sleep(std::time::Duration::from_millis(500));
+            let p = PROGRESS.load(std::sync::atomic::Ordering::Relaxed);
+            if p == last && p != 0 { idle += 1 } else { idle = 0; last = p }
+            if idle >= 20 { let c = CURRENT.lock().map(|c| c.clone()).unwrap_or_default(); eprintln!("HANG case did not return within 10 s: {}", c); std::process::exit(3); } } });
+}
 fn main() {
+    watchdog();
     let args: Vec<String> = std::env::args().collect();
     let cmd = args.get(1).map(|s| s.as_str()).unwrap_or("");
     let stdout = std::io::stdout();
@@ -27,6 +40,9 @@ fn main() {
         "buf-replay" => e_buf::buf_replay(&mut out),
         "cmp-table" => e_cmp::table(&mut out),
         "cmp" => e_cmp::cmp_cases(&mut out, seed, n, arg(&args, "--shard", 0), arg(&args, "--nshards", 1)),
+        "bufmut-random" => e_bufmut::bufmut_random(&mut out, seed, n, arg(&args, "--depth", 3)),
+        "bufmut-codec" => e_bufmut::bufmut_codec(&mut out, seed, n),
+        "bufmut-replay" => e_bufmut::bufmut_replay(&mut out),
         "escapes" => e_fmt::escapes(&mut out),
         "fmt" => e_fmt::fmt_cases(&mut out, seed, n, !flag(&args, "--no-pairs")),
         #[cfg(feature = "serde")]
